@@ -7,8 +7,8 @@ STR_POOL = [b'x', b'y', b'abc', b'', b'a b', b'X', b'10', b'ab', b'bc']
 NUM_POOL = [0.0, 1.0, 2.0, 3.0, -1.0, 0.5, 1.5, 10.0, 100.0, -2.5, 1e300, 2.0 ** 53, 0.1]
 JNUM_POOL = ['0', '1', '2', '3', '-1', '0.5', '1.5', '10', '100', '-2.5', '1e2', '1.0', '2.50', '1E1', '0.1', '1e400', '-1e999']
 DEEP_ONLY_KINDS = ['intmap', 'intslice', 'namedslice', 'namedmap', 'bytes', 'freshptr', 'freshptr', 'ifacestruct', 'ifacestruct']
-FILTER_FUNCS = ['twice', 'wrap', 'tn', 'fail', 'fstr', 'id', 'relay']
-AGG_FUNCS = ['cnt', 'first', 'arr', 'afail', 'amax']
+FILTER_FUNCS = ['twice', 'wrap', 'tn', 'fail', 'fstr', 'id', 'relay', 'k3']
+AGG_FUNCS = ['cnt', 'first', 'arr', 'afail', 'amax', 'c5']
 
 
 class G:
@@ -173,7 +173,8 @@ class G:
             n = r.randint(2, 3)
             items = []
             for _ in range(n):
-                items.append('*' if r.random() < 0.2 else self.pick_key(cur))
+                # b'*' is the quoted NAME '*' (a member called *), not the wildcard
+                items.append('*' if r.random() < 0.2 else (b'*' if r.random() < 0.08 else self.pick_key(cur)))
             return ('multi', items), rep
         if kind == 'union':
             n = r.choice([1, 1, 2, 3])
@@ -293,7 +294,7 @@ class G:
             lhs = self.gen_operand(cur, root, funcs=funcs)
             while lhs[0] == 'lit':
                 lhs = self.gen_operand(cur, root, funcs=funcs)
-            return ('re', lhs, r.choice([b'^a', b'b$', b'^x$', b'a', b'.', b'^$', b'[0-9]+', b'a|y', b'B', b'\\/', b'^ab$', b'^a$', b'^bc$', b'^b$', b'^1$', b'^ab', b'bc$']))
+            return ('re', lhs, r.choice([b'^a', b'b$', b'^x$', b'a', b'.', b'^$', b'[0-9]+', b'a|y', b'B', b'\\/', b'^ab$', b'^a$', b'^bc$', b'^b$', b'^1$', b'^ab', b'bc$', b'\\Qa.b', b'\\Qa', b'(?i)AB', b'(?s)a.', b'\\Qb\\E$']))
         op = r.choice(['==', '==', '!=', '<', '<=', '>', '>='])
         numeric = op in ('<', '<=', '>', '>=')
         lhs = self.gen_operand(cur, root, numeric, funcs)
@@ -623,10 +624,11 @@ def allwild_family(g):
         n = r.choice([0, 1, 2, 2, 3])
         if r.random() < 0.65:
             return ('a', [cont(d - 1) if r.random() < 0.6 else leaf() for _ in range(n)])
-        return ('o', [(k, cont(d - 1) if r.random() < 0.6 else leaf()) for k in r.sample([b'a', b'b', b'c', b'd'], n)])
+        return ('o', [(k, cont(d - 1) if r.random() < 0.6 else leaf()) for k in r.sample([b'a', b'b', b'c', b'd', b'*'], n)])
     doc = cont(r.choice([1, 2, 2, 3]))
     star2 = ('multi', ['*', '*'])
-    lst = r.choice([star2, star2, star2, ('multi', ['*', '*', '*']), ('multi', ['*', b'a']), ('multi', [b'a', '*'])])
+    lst = r.choice([star2, star2, star2, ('multi', ['*', '*', '*']), ('multi', ['*', b'a']), ('multi', [b'a', '*']),
+                    ('multi', [b'*', b'*']), ('multi', [b'*', '*']), ('multi', ['*', b'*', b'*'])])
     name_a, name_b = ('name', b'a', 'dot'), ('name', b'b', 'dot')
     prefix = r.choice([[('rec', lst)], [('rec', lst)], [('wild', 'br'), lst], [('wild', 'br'), lst], [('wild', 'dot'), lst], [lst],
                        [('rec', name_a), lst], [('wild', 'br'), ('wild', 'br'), lst], [('union', [('idx', 0), ('idx', 1)]), lst]])
